@@ -2,7 +2,7 @@
 from qlib import (AnalysisBroken, strip, isnode, walk, is_call, norm_cmp, var_ref, is_null, const_val, short, call_obj,
                   expr_key, field_name, is_this_field)
 from rules.common import (core_and_neg, tnode, other, cpos, npos, branches_on_call, flatten, in_subtree, loops_enclosing,
-                          need_some, returns_bool, straight_after)
+                          need_some, returns_bool, straight_after, other_loop_over)
 from rules.c02 import cmp_sides
 
 EXPLANATION = ("Ordering mechanism of the backend. R1: one clock read (ts_now) per pass over all queues, taken before the loop over "
@@ -123,7 +123,7 @@ def r3(ctx, facts, cfg):
         if is_this_field(rng, "_active_thread_contexts_cache"):
             sel = lp
     if sel is None:
-        raise AnalysisBroken("selection loop over _active_thread_contexts_cache not found")
+        raise AnalysisBroken("selection loop (range-for) over _active_thread_contexts_cache not found")
     lv = sel["loopvar"]["did"]
     body = sel.get("body")
     early = [x for x in walk(body) if x["k"] in ("BreakStmt", "ReturnStmt", "GotoStmt")]
@@ -214,6 +214,8 @@ def r4(ctx, facts, cfg):
             kinds.add("U" if "Unbounded" in cc["callee"] else "B")
     under_empty_buffer = bool(ebr) and not g.exists_path([g.entry_node], trues, avoid_edges=[(b, t) for (b, t, c) in ebr])
     loops = [n for n in f.walk() if n["k"] == "CXXForRangeStmt" and is_this_field(strip(n.get("range")), "_active_thread_contexts_cache")]
+    if not loops:
+        other_loop_over(f, "_active_thread_contexts_cache", "has_pending_events_for_caching_when_transit_event_buffer_empty")
     ctx.ob("C05.R4b", "has_pending_events_for_caching_when_transit_event_buffer_empty:both-queue-kinds",
            kinds == {"U", "B"} and under_empty_buffer and bool(loops),
            "reports 'pending' for a context with an empty transit buffer whose queue is not empty, for bounded and unbounded queues "
